@@ -317,6 +317,13 @@ def handleRaw (dir hex : String) (obs : String) : String × Bool × String :=
 def handle (c obs : String) : String × Bool × String :=
   match words c with
   | ["arr", helper, io, es] =>
+    -- `C` / `W`: the stream is cut by a cancellation at that element (harness/run/c20.go); outside the writer model
+    -- (which has no context), spec-only: the writer must end with an error
+    if (es.splitOn ",").any (fun t => t == "C" || t == "W") then
+      let clean := (obs.splitOn " werr=nil").length > 1
+      (if clean then "spec-only: a stream cut by cancellation must end with an error" else obs, !clean,
+       if clean then "a cancelled stream ended without an error: the truncated text looks like a complete document" else "")
+    else
     match parseElems es with
     | some elems => handleArr helper (io == "1") elems obs
     | none => ("bad-case", false, "unparsable case")
